@@ -7,6 +7,7 @@ use std::time::Instant;
 use crate::util::J;
 use crate::Args;
 
+pub mod c01enum;
 pub mod c02grid;
 pub mod c05cycle;
 pub mod c06;
@@ -113,6 +114,7 @@ pub fn run(args: &Args) -> J {
         "c07" => c07::run(args, &mut rep),
         "c06" => c06::run(args, &mut rep),
         "c02grid" => c02grid::run(args, &mut rep),
+        "c01enum" => c01enum::run(args, &mut rep),
         "c05cycle" => c05cycle::run(args, &mut rep),
         "c15" => c15::run(args, &mut rep),
         "c17" => c17::run(args, &mut rep),
